@@ -112,6 +112,14 @@ pub fn install_panic_hook() {
                 None => file.clone(),
             };
             let first = msg.lines().map(|l| l.trim()).find(|l| !l.is_empty()).unwrap_or("").to_string();
+            // the allocator shim generated for `#[global_allocator]` (attributed to cmhost/src/lib.rs)
+            // rejects a (size, align) pair that no allocation can have: somebody freed or resized
+            // memory with garbage for a length. The harness never builds layouts by hand.
+            if first.contains("Layout::from_size_align") && file.ends_with("cmhost/src/lib.rs") {
+                if let Some(h) = unsafe { crate::host::raw() } {
+                    violation(h, "T-MEM", "allocator", "memory was freed or resized with an impossible layout (the size exceeds isize::MAX): a garbage pointer/length pair reached the allocator");
+                }
+            }
             if in_harness {
                 harness_error(&format!("panic in harness at {}:{}: {}", file, loc.1, first));
             }
